@@ -304,9 +304,11 @@ def run_one(ctx: Ctx, rid: int, rng: random.Random, kind: str, mode: str, full: 
     err = None
     import contextlib
     import io
+    max_iter, tolerance = rng.randint(1, 4), rng.choice([1e-3, 0.05, 0.3])
+    driver = None
     try:
         with contextlib.redirect_stdout(io.StringIO()):
-            opt.optimize(max_iterations=rng.randint(1, 3), tolerance=1e-3, method=method)
+            driver = opt.optimize(max_iterations=max_iter, tolerance=tolerance, method=method)
     except Exception as e:  # pylint: disable=broad-except
         err = e
     finally:
@@ -321,8 +323,12 @@ def run_one(ctx: Ctx, rid: int, rng: random.Random, kind: str, mode: str, full: 
         final_obj = np.array([v.position for v in obj.vertices])
     else:
         final_obj = np.array(obj.positions)
+    # the iteration driver's record, in units of 1e-9 of the quality before the first iteration
+    unit = 1e-9 * max(q_initial, 1e-300)
+    its = [[int(round(min(it.initial_quality / unit, 2e9))), int(round(min(it.final_quality / unit, 2e9)))] for it in driver.iterations] if driver is not None else []
     rec = {
         "id": rid, "kind": kind, "mode": mode, "method": method, "steps": steps,
+        "iters": its, "max_iter": max_iter, "tol": int(round(tolerance * 1e9)),
         "final_worse": bool(q_final > q_initial + 1e-5 * max(1.0, abs(q_initial))),
         "unclamped_still": bool(all(np.array_equal(final_obj[i], initial[i]) for i in range(len(initial)) if i not in movable)),
         "backport_equal": bool(np.max(np.abs(final_obj - np.array(grid.points))) <= 1e-12 * scale),
@@ -333,14 +339,60 @@ def run_one(ctx: Ctx, rid: int, rng: random.Random, kind: str, mode: str, full: 
     return rec
 
 
+def driver_histories(ctx: Ctx) -> None:
+    """Driver.tla: every reachable history of iteration qualities with the decision due after it, replayed through the real
+    IterationDriver (begin_iteration / end_iteration / converged)."""
+    import contextlib
+    import io
+
+    from classy_blocks.optimize.iteration import IterationDriver
+
+    plans = [("4", "3", "2"), ("3", "4", "3")] if ctx.tier == "quick" else [("5", "4", "2"), ("4", "4", "3"), ("6", "3", "10")]
+    for qmax, maxiter, tolden in plans:
+        consts = {"QMax": qmax, "MaxIter": maxiter, "TolDen": tolden}
+        res = run_tlc("Driver", "driver.cfg", cfg_text=cfg_text("Spec", consts, ["Bounded", "AtLeastTwo", "EarlyStop"], ["Ends"], constraints=["Emit"]),
+                      workers=1, timeout=900)
+        ctx.add_tlc(res)
+        hs = [r for r in res.records if "hist" in r]
+        if len(hs) < 10:
+            raise MachineryError("Driver.tla emitted too few histories")
+        for h in hs:
+            unit = 7.5          # qualities are arbitrary positive numbers: the integers of the model times a unit
+            with contextlib.redirect_stdout(io.StringIO()):
+                drv = IterationDriver(h["max_iter"], 1.0 / h["tolden"])
+                try:
+                    decided = bool(drv.converged)       # before anything ran: never converged
+                    if decided:
+                        ctx.violation("driver:converged-before-first-iteration", "a fresh IterationDriver reports converged", {"history": h})
+                        continue
+                    for qb, qe in h["hist"]:
+                        drv.begin_iteration(qb * unit)
+                        drv.end_iteration(qe * unit)
+                    decided = bool(drv.converged)
+                except Exception as err:  # pylint: disable=broad-except
+                    ctx.violation(f"driver:raises:{type(err).__name__}", f"IterationDriver raised {err}", {"history": h})
+                    continue
+            ctx.evaluated(f"driver:{h['hist']}:{h['max_iter']}:{h['tolden']}")
+            ctx.validated()
+            if decided != h["converged"]:
+                kind = "stops-early" if decided else "goes-on"
+                ctx.violation(f"driver:{kind}", f"after iterations {h['hist']} (max {h['max_iter']}, tolerance 1/{h['tolden']}) the driver "
+                              f"{'stops' if decided else 'goes on'}, Driver.tla says it {'stops' if h['converged'] else 'goes on'}", {"history": h})
+
+
 def run(ctx: Ctx) -> None:
     ctx.rule = ("runs = small perturbed hex assemblies (2x2x2) and mapped sketches (3x3) under random similarities with random "
                 "subsets of Free/Plane/Line clamps and a translation link, 1..3 iterations, the four scipy methods and three "
                 "scripted minimisers; non-trivial = at least one clamp step recorded; distinct by (kind, mode, method, clamps)")
-    consts = {"NClamps": "2", "NFollow": "2", "NParams": "2", "QMax": "2", "MaxProbes": "2" if ctx.tier == "quick" else "3"}
-    text = cfg_text("Spec", consts, ["NeverWorse", "UnclampedStill", "FollowerLinked", "NotHalfApplied", "BackportEqual"], ["StepMonotone"])
+    consts = {"NClamps": "2", "NFollow": "2", "NParams": "2", "QMax": "2", "MaxProbes": "2" if ctx.tier == "quick" else "3",
+              "MaxIter": "3", "TolDen": "2"}
+    text = cfg_text("Spec", consts, ["NeverWorse", "UnclampedStill", "FollowerLinked", "NotHalfApplied", "BackportEqual", "IterBound", "IterAtLeastTwo"], ["StepMonotone"])
     res = run_tlc("Optimizer", "opt.cfg", cfg_text=text, workers=16, timeout=1200)
     ctx.add_tlc(res)
+    # the driver ends: under weak fairness every behaviour reaches "done" (at most MaxIter iterations of bounded steps)
+    live = run_tlc("Optimizer", "opt_live.cfg", cfg_text=cfg_text("FairSpec", consts, ["IterBound"], ["Terminates"]), workers=16, timeout=1200)
+    ctx.add_tlc(live)
+    driver_histories(ctx)
     rng = random.Random(ctx.seed + 13)
     recs = []
     n = 24 if ctx.tier == "quick" else 200
